@@ -37,6 +37,8 @@ struct Reply {
     /// Indices (into `starts`) of the Cache Response and the End of Data of
     /// the data response, if the reply has one.
     response: Option<(usize, usize)>,
+    /// Version and session of the End of Data that completes the step.
+    eod: Option<(u8, u16)>,
     /// What the client starts with.
     state: Option<(u16, u32)>,
     init_v: u8,
@@ -112,9 +114,13 @@ fn gen_reply(t: &mut Tape, seq: &[WirePdu]) -> Reply {
             complete_at = Some(bytes.len());
         }
     }
+    let eod = complete_idx.and_then(|e| match &pdus[e] {
+        WirePdu::EndOfData { v, session, .. } => Some((*v, *session)),
+        _ => None,
+    });
     let response = complete_idx.and_then(|e| pdus.iter().position(|p| matches!(p, WirePdu::CacheResponse { .. })).map(|b| (b, e)));
     Reply {
-        bytes, starts, complete_at, response,
+        bytes, starts, complete_at, response, eod,
         state: if mode == 5 { None } else { state },
         init_v,
         what: format!("{} (v{}, client starts at v{}, state {:?}): {}", what, v, init_v, state, pdus.iter().map(wire::describe).collect::<Vec<_>>().join(", ")),
@@ -122,7 +128,7 @@ fn gen_reply(t: &mut Tape, seq: &[WirePdu]) -> Reply {
 }
 
 struct CaseOut {
-    /// `None`: the outer deadline (a simulated day) passed.
+    /// `None`: the outer deadline (a simulated hour) passed.
     res: Option<Result<(), std::io::Error>>,
     applied: usize,
 }
@@ -150,7 +156,7 @@ fn run_case(
         let sock = SimSocket { rx: s2c.clone(), tx: c2s.clone(), ctx: ctx.clone(), updates: Default::default() };
         let target = ModelTarget::default();
         let mut client = Client::with_initial_version(reply.init_v, sock, target.clone(), reply.state.map(mk_state));
-        let res = rt.block_on(async { tokio::time::timeout(Duration::from_secs(86_400), client.step()).await });
+        let res = rt.block_on(async { tokio::time::timeout(Duration::from_secs(3_600), client.step()).await });
         let applied = target.0.lock().unwrap().applied.len();
         Ok(CaseOut { res: res.ok(), applied })
     })
@@ -167,7 +173,7 @@ fn judge(reply: &Reply, name: &str, stream: &[u8], eof: bool, cut: Option<usize>
         None => Err(Violation::new(
             "client-hang",
             key,
-            format!("Client::step() did not return within a simulated day on [{}]; reply: {}; stream={}", name, reply.what, hex(&stream[..stream.len().min(96)])),
+            format!("Client::step() did not return within a simulated hour (the IO timeout of the client is 10 s) on [{}]; reply: {}; stream={}", name, reply.what, hex(&stream[..stream.len().min(96)])),
         )),
         Some(Ok(())) => {
             if let Some(k) = cut {
@@ -236,7 +242,7 @@ pub fn client_cases(ctx: &Arc<SimCtx>, seq: &[WirePdu], counters: &mut Counters,
         let end = reply.starts.get(i + 1).copied().unwrap_or(len);
         for (cname, c) in crate::c07::corruptions(&reply.bytes[*s..end]) {
             let ann = u32::from_be_bytes([c[4], c[5], c[6], c[7]]);
-            if ann > (1 << 24) && !ctx.chance(1, 8) {
+            if ann > (1 << 24) && !ctx.chance(1, 32) {
                 continue;
             }
             let mut stream = reply.bytes[..*s].to_vec();
@@ -253,8 +259,8 @@ pub fn client_cases(ctx: &Arc<SimCtx>, seq: &[WirePdu], counters: &mut Counters,
     // cannot complete; it must end (the refresh timer runs on the paused
     // clock), not panic and not touch the target.
     if reply.complete_at == Some(reply.bytes.len()) {
-        let session = u16::from_be_bytes([reply.bytes[reply.bytes.len().saturating_sub(if reply.init_v == 0 { 10 } else { 22 })], 0]);
-        let notify = WirePdu::SerialNotify { v: reply.bytes[0].min(2), session, serial: 7 }.encode();
+        let (nv, session) = reply.eod.unwrap_or((0, 0));
+        let notify = WirePdu::SerialNotify { v: nv, session, serial: 7 }.encode();
         let mut tails: Vec<(String, Vec<u8>)> = (0..notify.len()).map(|k| (format!("idle-truncated@{}", k), notify[..k].to_vec())).collect();
         for (cname, c) in crate::c07::corruptions(&notify) {
             let ann = u32::from_be_bytes([c[4], c[5], c[6], c[7]]);
@@ -281,9 +287,9 @@ pub fn client_cases(ctx: &Arc<SimCtx>, seq: &[WirePdu], counters: &mut Counters,
                 let target = ModelTarget::default();
                 let mut client = Client::with_initial_version(reply.init_v, sock, target.clone(), reply.state.map(mk_state));
                 let res = rt.block_on(async {
-                    let first = tokio::time::timeout(Duration::from_secs(86_400), client.step()).await;
+                    let first = tokio::time::timeout(Duration::from_secs(3_600), client.step()).await;
                     match first {
-                        Ok(Ok(())) => Some(tokio::time::timeout(Duration::from_secs(400 * 86_400), client.step()).await.ok()),
+                        Ok(Ok(())) => Some(tokio::time::timeout(Duration::from_secs(2 * 86_400), client.step()).await.ok()),
                         _ => None,
                     }
                 });
@@ -299,7 +305,7 @@ pub fn client_cases(ctx: &Arc<SimCtx>, seq: &[WirePdu], counters: &mut Counters,
                     return Err(Violation::new(
                         "client-hang",
                         "idle",
-                        format!("the second Client::step() did not return within 400 simulated days on [{}]; reply: {}", name, reply.what),
+                        format!("the second Client::step() did not return within two simulated days (the refresh timer of the generated replies is an hour) on [{}]; reply: {}", name, reply.what),
                     ));
                 }
                 (Some(Some(Ok(()))), _) => {
